@@ -1,15 +1,26 @@
-// R-LOCK (state unit): std::sync::RwLock<M> in a sequential execution — read() gives &M, write()/get_mut() give &mut M.
-// Erases interior mutability: everything about concurrent access is NOT decided (DESIGN.md §3.3 R-LOCK).
-pub struct RwLock<M> { pub inner: M }
+// R-LOCK (state unit): std::sync::RwLock<M> in a sequential execution — read()/write()/get_mut() hand out the
+// protected value. Erases interior mutability: everything about concurrent access is NOT decided (DESIGN.md §3.3 R-LOCK).
+// The ghost counter `acq` counts lock acquisitions (read or write), so that a contract can say "the decision and the
+// registration happen inside ONE critical section" (= exactly one acquisition); get_mut needs exclusive access and
+// does not lock.
+pub struct RwLock<M> { pub inner: M, pub acq: Ghost<nat> }
 impl<M> RwLock<M> {
     pub fn write(&mut self) -> (r: Result<&mut M, ()>)
-        ensures r is Ok, *r->Ok_0 == old(self).inner, *final(r->Ok_0) == final(self).inner
-    { Ok(&mut self.inner) }
-    pub fn read(&self) -> (r: Result<&M, ()>) ensures r is Ok, *r->Ok_0 == self.inner { Ok(&self.inner) }
+        ensures r is Ok, *r->Ok_0 == old(self).inner, *final(r->Ok_0) == final(self).inner, final(self).acq@ == old(self).acq@ + 1
+    {
+        proof { self.acq = Ghost((self.acq@ + 1) as nat); }
+        Ok(&mut self.inner)
+    }
+    pub fn read(&mut self) -> (r: Result<&M, ()>)
+        ensures r is Ok, *r->Ok_0 == old(self).inner, final(self).inner == old(self).inner, final(self).acq@ == old(self).acq@ + 1
+    {
+        proof { self.acq = Ghost((self.acq@ + 1) as nat); }
+        Ok(&self.inner)
+    }
     pub fn get_mut(&mut self) -> (r: Result<&mut M, ()>)
-        ensures r is Ok, *r->Ok_0 == old(self).inner, *final(r->Ok_0) == final(self).inner
+        ensures r is Ok, *r->Ok_0 == old(self).inner, *final(r->Ok_0) == final(self).inner, final(self).acq@ == old(self).acq@
     { Ok(&mut self.inner) }
 }
 impl<M: Default> Default for RwLock<M> {
-    fn default() -> (r: Self) ensures call_ensures(M::default, (), r.inner) { Self { inner: M::default() } }
+    fn default() -> (r: Self) ensures call_ensures(M::default, (), r.inner), r.acq@ == 0 { Self { inner: M::default(), acq: Ghost(0) } }
 }
